@@ -99,6 +99,9 @@ type Enc struct {
 	keyMemo   map[string]Term
 	// loop ordinals named by the contract that the body does not have
 	missingLoops []int
+	// names asked for by calls("...") in the contract (validated against the calls the body makes)
+	callQueries map[string]bool
+	retOrder    map[*ssa.Return]int
 	// loop whose own write set must not record the current write (entry counter bumped at its header)
 	skipWriteFor *loopInfo
 	famSorts     map[string]string
